@@ -70,21 +70,21 @@ type Disk struct {
 	StFault   func(n int, op, file string, size int) (err error, short int)
 	StReadBad func(n int, file string, off int64, p []byte) error // may corrupt p in place or return an error
 	// snapshot the node's work_dir immediately before storage operation number StSnapAt (0: off)
-	StSnapAt    int64
-	StSnapTorn  int    // for a write op: number of bytes of it that reach the file before the snapshot
-	StSnapDir   string // source
-	StSnapTo    string // destination
-	StSnapDone  bool
+	StSnapAt   int64
+	StSnapTorn int    // for a write op: number of bytes of it that reach the file before the snapshot
+	StSnapDir  string // source
+	StSnapTo   string // destination
+	StSnapDone bool
 	// the same, counted only over the storage operations issued below a function whose name contains StSnapScope (the
 	// k-th operation of, say, the store switch, however many operations the streaming before it took)
 	StSnapScope   string
 	StSnapScopeAt int64
 	stScopeN      int64
-	SmallWB     bool // open databases with a tiny write buffer so that table files and compactions exist
-	KeepLog     bool
-	openDBs     int64
-	openPaths   map[string]int
-	OpenedNames map[string]bool // base names of every directory that was successfully opened as a database in this run
+	SmallWB       bool // open databases with a tiny write buffer so that table files and compactions exist
+	KeepLog       bool
+	openDBs       int64
+	openPaths     map[string]int
+	OpenedNames   map[string]bool // base names of every directory that was successfully opened as a database in this run
 }
 
 func NewDisk(s *Sim, root string) *Disk {
